@@ -61,6 +61,15 @@ pub trait Engine {
     }
     /// canonical state built from layer A (C20), in ProjB schema
     fn canon_from_a(a: &Value, d: &Dims) -> Option<Value>;
+    /// the pending (deferred) removes layer A says the replica must be holding, in the schema of the state
+    /// projection's pending table; None for types without one
+    fn pending_from_a(_a: &Value) -> Option<Value> {
+        None
+    }
+    /// the pending table of a state projection
+    fn pending_of_proj(_p: &Value) -> Option<Value> {
+        None
+    }
     /// true iff layer A says no remove is pending
     fn a_no_pending(_a: &Value) -> bool {
         true
@@ -864,6 +873,25 @@ impl<'a, E: Engine> Replayer<'a, E> {
                     };
                     self.rep.add(&verdict, &["C20"], E::NAME, &format!("canon.{}", dd.0), dd.1, dd.2, b.clone(), h, Value::Null);
                 }
+            }
+        }
+
+        // 2b. C08: "the replica remembers" an overtaking remove, also through merges: the pending removes it holds
+        //     are exactly those layer A says are still waiting (a lost one would only show later, on paths TLC may
+        //     not enumerate because the model state is reached another way)
+        if let (Some(pa), Some(pr)) = (E::pending_from_a(&ln["A"]), E::pending_of_proj(&real_proj)) {
+            let mut pp = vec!["C08"];
+            if f.merge {
+                pp.push("C03");
+            }
+            self.rep.eval(&pp);
+            if pa != pr {
+                let eqm = Some(E::pending_of_proj(&b) == Some(pr.clone()));
+                let verdict = match self.known.listed(&E::kf_name(), "pending", eqm, pend_now, &self.cur_sigs) {
+                    Some(fd) => format!("known:{}", fd.id),
+                    None => "violation".to_string(),
+                };
+                self.rep.add(&verdict, &pp, E::NAME, "pending", pr, pa, Value::Null, h, Value::Null);
             }
         }
 
